@@ -605,6 +605,33 @@ def deserialize (g : Gen) (kind : Kind) (data : Bytes) : Except Err Node :=
         | .ok pp => mkNode g kind chain d.toNat fp idx (.pub (some pp))
     | _ => .error .type   -- `ord(b"")`: unreachable once bytes 5..13 exist
 
+
+/-- `BIP32Node.override_network(other)`: `other.keys.bip32_deserialize(b"\0\0\0\0" + self.serialize())` — the
+node rebuilt by the other network's plain BIP32 class from the 74 bytes (private form when there is a secret) -/
+def Node.overrideNetwork (g : Gen) (n : Node) : Except Err Node :=
+  match n.serialize none with
+  | .error e => .error e
+  | .ok blob => deserialize g .bip32 ([0, 0, 0, 0] ++ blob)
+
+/-- `BIP32Node.__init__` with `secret_exponent` and `public_pair` both optional: exactly one must be given -/
+def mkNodeArgs (g : Gen) (kind : Kind) (chainCode : Bytes) (depth : Nat) (fp : Bytes) (childIndex : Nat)
+    (se : Option Int) (pp : Option Curve.Pt) : Except Err Node :=
+  match se, pp with
+  | some k, none => mkNode g kind chainCode depth fp childIndex (.priv k)
+  | none, some q => mkNode g kind chainCode depth fp childIndex (.pub q)
+  | _, _ => .error .value
+
+/-- the `(i, is_hardened)` pairs `children` walks: `for i in range(start, max_level + start + 1)`, the plain child then
+(`include_hardened`) the hardened one -/
+def childrenCalls (maxLevel startIndex : Nat) (includeHardened : Bool) : List (Nat × Bool) :=
+  (List.range (maxLevel + 1)).flatMap fun d =>
+    if includeHardened then [(startIndex + d, false), (startIndex + d, true)] else [(startIndex + d, false)]
+
+/-- `list(node.children(max_level, start_index, include_hardened))` -/
+def Node.children (g : Gen) (fuel : Nat) (n : Node) (maxLevel startIndex : Nat) (includeHardened : Bool) :
+    Except Err (List Node) :=
+  mapMExcept (fun c => subkey0 g fuel n (c.1 : Int) c.2 none) (childrenCalls maxLevel startIndex includeHardened)
+
 /-! ### text form per network (`bitcoinish.py: bipNN_as_string`, `ParseAPI.hparse`) -/
 
 open Pycoin.Addr (Network)
